@@ -1088,12 +1088,7 @@ func main() {
 		fail("unknown preset", *cfg)
 	}
 	p.complete(*cfg)
-	tp := p.TP
-	thor.SetConfig(thor.Config{EpochLength: p.E, LowStakingPeriod: p.LowP, MediumStakingPeriod: p.MedP, HighStakingPeriod: p.HighP,
-		CooldownPeriod: p.Cooldown, ValidatorEvictionThreshold: p.EvictThreshold, EvictionCheckInterval: p.EvictInterval, HayabusaTP: &tp})
-	if thor.EpochLength() != p.E || thor.HayabusaTP() != p.TP || thor.CooldownPeriod() != p.Cooldown {
-		fail("thor.SetConfig did not take effect")
-	}
+	applyConfig(p)
 
 	var all []trace.Ev
 	var stats []runStat
@@ -1134,6 +1129,18 @@ func main() {
 	wj("config.json", p)
 	b, _ := json.Marshal(map[string]any{"histories": len(stats), "events": len(all), "cfg": p.Name})
 	fmt.Println(string(b))
+}
+
+// applyConfig sets the process-global thor configuration to the preset
+func applyConfig(p preset) {
+	tp := p.TP
+	thor.SetConfig(thor.Config{EpochLength: p.E, LowStakingPeriod: p.LowP, MediumStakingPeriod: p.MedP, HighStakingPeriod: p.HighP,
+		CooldownPeriod: p.Cooldown, ValidatorEvictionThreshold: p.EvictThreshold, EvictionCheckInterval: p.EvictInterval, HayabusaTP: &tp})
+	if thor.EpochLength() != p.E || thor.HayabusaTP() != p.TP || thor.CooldownPeriod() != p.Cooldown ||
+		thor.LowStakingPeriod() != p.LowP || thor.MediumStakingPeriod() != p.MedP || thor.HighStakingPeriod() != p.HighP ||
+		thor.ValidatorEvictionThreshold() != p.EvictThreshold || thor.EvictionCheckInterval() != p.EvictInterval {
+		fail("thor.SetConfig did not take effect")
+	}
 }
 
 func presetNames() []string {
